@@ -795,4 +795,33 @@ def lcInitChain (k : AccKind) (a : AddrClass) : Out Unit :=
 def lcUpgrade (k : AccKind) (a : AddrClass) : Out Unit :=
   if a = .sysContract then (match setEVMCode (some k) with | .ok _ => .ok () | .err e => .err e | .panic m => .panic m) else .ok ()
 
+/-! ## the block gas meter
+
+Begin/EndBlock code runs under the block's gas meter: absent in keeper-level contexts, infinite when
+`consensus_params.block.max_gas = -1`, FINITE otherwise — and then already filled by the block's transactions when
+`gov.EndBlocker` executes a passed proposal.  `ConsumeGas` on a finite meter panics (`ErrorOutOfGas`) on overflow; only `runTx`
+recovers that.  The modelled block-phase steps never touch the meter: they take the gas state as an argument and ignore it. -/
+
+structure BlockGas where
+  finite : Bool
+  limit : Nat
+  consumed : Nat
+  deriving Repr, DecidableEq
+
+/-- `GasMeter.ConsumeGas(amount)` on the block meter (what the modelled code does NOT do). -/
+def consumeBlockGas (g : BlockGas) (amount : Nat) : Out BlockGas :=
+  if g.finite ∧ g.consumed + amount > g.limit then .panic "ErrorOutOfGas: block gas meter" else .ok { g with consumed := g.consumed + amount }
+
+/-- a passed xibc proposal executed by `gov.EndBlocker` in a block with gas state `g`. -/
+def xHandleInBlock (_g : BlockGas) (e : Env) (s : XSt) (p : XProp) : Out XSt := xHandle e s p
+
+/-- the aggregate handlers that make module-initiated EVM calls, in a block with gas state `g`. -/
+def registerCoinInBlock (_g : BlockGas) (e : CoinEnv) (s : ASt) (p : CoinProp) : Out ASt := handleRegisterCoin e s p
+def evmOnlyInBlock (_g : BlockGas) (evmOk : Bool) : Out Unit := handleEvmOnly evmOk
+def enableLimitInBlock (_g : BlockGas) (evmOk : Bool) (p : LimitProp) : Out Unit := handleEnableLimit evmOk p
+
+/-- a handler that charges the EVM call's gas to the block (the variant the code must not become). -/
+def evmOnlyChargingBlock (g : BlockGas) (evmOk : Bool) (gasUsed : Nat) : Out Unit :=
+  if evmOk then (match consumeBlockGas g gasUsed with | .ok _ => .ok () | .err e => .err e | .panic m => .panic m) else .err "evm"
+
 end TM.NoPanic
